@@ -232,3 +232,11 @@ package report
 //@   loop 1
 //@     mustcall Node.FlatValue flat_value: $arg0 == n when true
 //@     mustcall Node.CumValue cum_value: $arg0 == n when true
+
+// ---- C08 (strengthened after seeded change disasm-symbol-order-same-name-tie): the order of the routine blocks of the
+// assembly listing is a strict total order on (name, start address): two sampled symbols tie only when both agree.
+//@ order syms_byname arith bv
+//@   elems *objSymbol
+//@   wf $x != nil && $x.sym != nil && len($x.sym.Name) >= 1
+//@   less PrintAssembly$1
+//@   key $x.sym.Name[0] == $y.sym.Name[0] && $x.sym.Start == $y.sym.Start
